@@ -1,92 +1,380 @@
 import JaqalModel.Model.Ir
 import JaqalModel.Base.Err
 /-!
-Gate definitions: `Parameter.validate` (`/repo/src/jaqalpaq/core/parameter.py`) and
-`AbstractGate.call` (`/repo/src/jaqalpaq/core/gatedef.py`).
+Gate definitions: `Parameter.validate` (`/repo/src/jaqalpaq/core/parameter.py`),
+`AbstractGate.call` / `copy`, `GateDefinition.used_qubits` / `quantum_parameters` /
+`classical_parameters`, `IdleGateDefinition`, `BusyGateDefinition`, `add_idle_gates`
+(`/repo/src/jaqalpaq/core/gatedef.py`), `stretched_gates` (`/repo/src/jaqalpaq/core/stretch.py`) and the
+per-gate argument split of `UnitarySerializedEmulator._make_subcircuit`
+(`/repo/src/jaqalpaq/emulator/unitary.py`, lines 61-76).
+
+Core Lean only.
 -/
 namespace Jaqal.GateDef
 
+/-! ### Python `dict` / `OrderedDict` as an association list in insertion order -/
+
+/-- `d[k] = v`: an existing key keeps its position (and gets the new value), a new key goes last. -/
+def odSet {β : Type} (d : List (String × β)) (k : String) (v : β) : List (String × β) :=
+  match d with
+  | [] => [(k, v)]
+  | (k', v') :: r => if k' = k then (k', v) :: r else (k', v') :: odSet r k v
+
+/-- `d[k]` -/
+def odGet? {β : Type} (d : List (String × β)) (k : String) : Option β :=
+  match d with
+  | [] => none
+  | (k', v') :: r => if k' = k then some v' else odGet? r k
+
+/-- `k in d` -/
+def odHas {β : Type} (d : List (String × β)) (k : String) : Bool := (odGet? d k).isSome
+
+/-- perform the writes `ws` in order on `d` (`d.update(ws)`) -/
+def odUpdate {β : Type} (d ws : List (String × β)) : List (String × β) :=
+  ws.foldl (fun d w => odSet d w.1 w.2) d
+
+/-- `kwargs.pop(k)` on a dict (keys are distinct): the remaining dict -/
+def odDel {β : Type} (d : List (String × β)) (k : String) : List (String × β) :=
+  d.filter (fun p => p.1 ≠ k)
+
+/-! ### `Constant` -/
+
 /-- the `kind` of a `Constant`: INT or FLOAT, from its value (a constant defined by another
-constant inherits its kind) -/
+constant inherits its kind). `Constant.__init__` raises `JaqalError` for any other value, so
+`Val.const n v` with `constKind v = .none` is not the image of any Python object. -/
 def constKind : Val → Kind
   | .int _ => .int
   | .flt _ => .float
   | .const _ v => constKind v
   | _ => .none
 
-/-- is the numeric value of a constant integral (`float(value.value).is_integer()`)? -/
+/-- is the numeric value of a constant integral (`float(value.value).is_integer()`;
+`Constant.__float__` recurses through constants defined by constants)? -/
 def constIntegral : Val → Bool
   | .int _ => true
   | .flt d => d.isIntegral
   | .const _ v => constIntegral v
   | _ => false
 
-/-- `Parameter(kind).validate(value)` does not raise. -/
-def fits (k : Kind) (v : Val) : Bool :=
+/-- `value.kind` if `value` is an `AnnotatedValue` (`Parameter` or `Constant`) -/
+def avKind? : Val → Option Kind
+  | .param _ k => some k
+  | .const _ x => match constKind x with
+    | .int => some .int
+    | .float => some .float
+    | _ => none                    -- no such Python object
+  | _ => none
+
+def isNamedQubit : Val → Bool
+  | .qubit _ _ _ => true
+  | _ => false
+
+def isRegister : Val → Bool
+  | .regF _ _ => true
+  | .regA _ _ => true
+  | .regS _ _ _ _ _ => true
+  | _ => false
+
+/-- `isinstance(value, AnnotatedValue) and value.kind in ks` -/
+def avKindIn (v : Val) (ks : List Kind) : Bool :=
+  match avKind? v with
+  | some k => ks.contains k
+  | none => false
+
+def typeErr : Err := .jaqal "type-check"
+
+/-! ### `Parameter.validate` -/
+
+/-- `Parameter(name, k).validate(v)`, branch by branch. Besides `JaqalError` one more exception can
+escape: an INT parameter offered a `Parameter` of kind FLOAT evaluates `value.value`, which a
+`Parameter` does not have (`AttributeError`). (`bool` is an `int` in Python; the IR has no separate
+booleans. Non-finite floats are outside `Dec`; they fit FLOAT and untyped parameters only.) -/
+def validate (k : Kind) (v : Val) : M Unit :=
   match k with
   | .qubit =>
-    match v with
-    | .qubit _ _ _ => true
-    | .param _ kk => kk == .qubit || kk == .none
-    | _ => false
+    if isNamedQubit v then pure ()
+    else if avKindIn v [.qubit, .none] then pure ()
+    else throw typeErr
   | .register =>
-    match v with
-    | .regF _ _ => true
-    | .regA _ _ => true
-    | .regS _ _ _ _ _ => true
-    | .param _ kk => kk == .register || kk == .none
-    | _ => false
+    if isRegister v then pure ()
+    else if avKindIn v [.register, .none] then pure ()
+    else throw typeErr
   | .float =>
-    match v with
-    | .int _ => true
-    | .flt _ => true
-    | .const _ _ => true          -- a Constant's kind is INT or FLOAT
-    | .param _ kk => kk == .int || kk == .float || kk == .none
-    | _ => false
+    if v.isNum then pure ()
+    else if avKindIn v [.int, .float, .none] then pure ()
+    else throw typeErr
   | .int =>
-    match v with
-    | .int _ => true
-    | .flt d => d.isIntegral
-    | .const _ x => constKind x == .int || (constKind x == .float && constIntegral x)
-    | .param _ kk => kk == .int || kk == .none
-    | _ => false
-  | .none => true
+    if (match v with | .flt d => d.isIntegral | .int _ => true | _ => false) then pure ()
+    else if avKindIn v [.int, .none] then pure ()
+    else if avKindIn v [.float] then
+      -- `float(value.value).is_integer()`
+      match v with
+      | .const _ x => if constIntegral x then pure () else throw typeErr
+      | _ => throw (.other "AttributeError")
+    else throw typeErr
+  | .none => pure ()
 
-/-- validate the bound arguments in parameter order -/
+/-- `Parameter(kind).validate(value)` does not raise. -/
+def fits (k : Kind) (v : Val) : Bool :=
+  match validate k v with
+  | .ok _ => true
+  | .error _ => false
+
+/-! ### `AbstractGate.call` -/
+
+/-- `for param in self.parameters: param.validate(params[param.name])` -/
 def validateAll : List (String × Kind) → List (String × Val) → M Unit
   | [], _ => pure ()
   | (n, k) :: ps, bound =>
-    match (bound.find? (·.1 == n)) with
-    | some (_, v) => if fits k v then validateAll ps bound else .error (.jaqal "type-check")
+    match odGet? bound n with
+    | some v => do validate k v; validateAll ps bound
     | none => .error (.other "KeyError")
 
-/-- `gate_def(*args)` -/
-def callPos (gd : GateDef) (args : List Val) : M Stmt := do
-  if args.length > gd.params.length then throw (.jaqal "too-many-parameters")
-  let bound := (gd.params.map (·.1)).zip args
-  -- a repeated parameter name would collapse in the OrderedDict; definitions have distinct names
+/-- the common tail of `call`: the count check, validation, the statement -/
+def finish (gd : GateDef) (bound : List (String × Val)) : M Stmt := do
   if gd.params.length ≠ bound.length then throw (.jaqal "bad-argument-count")
   validateAll gd.params bound
   pure (.gate gd.name gd bound)
 
-/-- `gate_def(**kwargs)`: parameters are bound in the definition's order. -/
+/-- `gate_def(*args)`. The names are zipped with the arguments into an `OrderedDict` (a repeated
+parameter name collapses, so such a definition can never be called); the branch
+"Insufficient parameters" of the code is dead (same test as "Too many"), a short argument list is
+caught by the count check. -/
+def callPos (gd : GateDef) (args : List Val) : M Stmt := do
+  if args.length > gd.params.length then throw (.jaqal "too-many-parameters")
+  finish gd (odUpdate [] ((gd.params.map (·.1)).zip args))
+
+/-- `params[param.name] = kwargs.pop(param.name)` for every parameter in order -/
+def popAll : List (String × Kind) → List (String × Val) → List (String × Val) →
+    M (List (String × Val) × List (String × Val))
+  | [], kw, acc => pure (acc, kw)
+  | (n, _) :: ps, kw, acc =>
+    match odGet? kw n with
+    | some v => popAll ps (odDel kw n) (odSet acc n v)
+    | none => .error (.jaqal "missing-parameter")
+
+def hasDupKey {β : Type} : List (String × β) → Bool
+  | [] => false
+  | (k, _) :: r => odHas r k || hasDupKey r
+
+/-- `gate_def(**kwargs)`: parameters are bound in the definition's order. `kwargs` is a `dict`: a
+repeated keyword never reaches `call` (`g(**a, **b)` raises `TypeError` at the call site). -/
 def callKw (gd : GateDef) (kwargs : List (String × Val)) : M Stmt := do
-  let rec bind : List (String × Kind) → List (String × Val) → M (List (String × Val) × List (String × Val))
-    | [], rest => pure ([], rest)
-    | (n, _) :: ps, rest =>
-      match rest.find? (·.1 == n) with
-      | some a => do
-        let (bs, rest') ← bind ps (rest.filter (·.1 != n))
-        pure (a :: bs, rest')
-      | none => .error (.jaqal "missing-parameter")
+  if hasDupKey kwargs then throw (.other "TypeError")
   if kwargs.isEmpty then
     -- neither positional nor keyword arguments: only the count check remains
-    if gd.params.length ≠ 0 then throw (.jaqal "bad-argument-count")
-    return .gate gd.name gd []
-  let (bound, rest) ← bind gd.params kwargs
-  if !rest.isEmpty then throw (.jaqal "invalid-parameters")
-  if gd.params.length ≠ bound.length then throw (.jaqal "bad-argument-count")
-  validateAll gd.params bound
-  pure (.gate gd.name gd bound)
+    finish gd []
+  else
+    let (bound, rest) ← popAll gd.params kwargs []
+    if !rest.isEmpty then throw (.jaqal "invalid-parameters")
+    finish gd bound
+
+/-- `gate_def(*args, **kwargs)` with both non-empty -/
+def callMixed (_gd : GateDef) (_args : List Val) (_kwargs : List (String × Val)) : M Stmt :=
+  throw (.jaqal "mixed-parameters")
+
+/-- `AbstractGate.call(*args, **kwargs)` -/
+def call (gd : GateDef) (args : List Val) (kwargs : List (String × Val)) : M Stmt :=
+  if !args.isEmpty && kwargs.isEmpty then callPos gd args
+  else if !kwargs.isEmpty && args.isEmpty then callKw gd kwargs
+  else if !kwargs.isEmpty && !args.isEmpty then
+    if hasDupKey kwargs then throw (.other "TypeError") else callMixed gd args kwargs
+  else finish gd []
+
+/-! ### Gate-definition objects with their unitary and parent -/
+
+/-- A `GateDefinition` object by value. `U` is the (opaque) type of what `ideal_unitary(*argv)`
+returns; the function receives the classical arguments in parameter order.
+
+* `active name busy …` — `GateDefinition` (`busy = false`) or `BusyGateDefinition`
+* `idle name params parent unitary` — `IdleGateDefinition`: `_parent_def` is an object reference (the
+  parent need not be a member of any gate set), hence by value. `unitary` is `none` from the
+  constructor (class attribute `_ideal_unitary = None`); only `copy(ideal_unitary=f)` can set it. -/
+inductive GDef (U : Type) where
+  | active (name : String) (busy : Bool) (params : List (String × Kind)) (unitary : Option (List Val → U))
+  | idle (name : String) (params : List (String × Kind)) (parent : GDef U) (unitary : Option (List Val → U))
+
+namespace GDef
+variable {U : Type}
+
+def name : GDef U → String
+  | .active n _ _ _ => n
+  | .idle n _ _ _ => n
+
+def params : GDef U → List (String × Kind)
+  | .active _ _ p _ => p
+  | .idle _ p _ _ => p
+
+/-- `ideal_unitary` -/
+def unitary : GDef U → Option (List Val → U)
+  | .active _ _ _ u => u
+  | .idle _ _ _ u => u
+
+def isIdle : GDef U → Bool
+  | .idle _ _ _ _ => true
+  | _ => false
+
+def parent? : GDef U → Option (GDef U)
+  | .idle _ _ p _ => some p
+  | _ => none
+
+def tag : GDef U → DefTag
+  | .active _ false _ _ => .native
+  | .active _ true _ _ => .busy
+  | .idle _ _ _ _ => .idle
+
+/-- what a gate statement keeps of the definition (`Ir.GateDef`) -/
+def base (g : GDef U) : GateDef :=
+  { name := g.name, tag := g.tag, params := g.params, hasUnitary := g.unitary.isSome }
+
+/-- `copy(name=…, parameters=…, ideal_unitary=…)`: same class, same `__dict__` (an idle gate keeps its
+`_parent_def`), the given attributes replaced (`None` = keep). -/
+def copy (g : GDef U) (name : Option String) (params : Option (List (String × Kind)))
+    (unitary : Option (List Val → U)) : GDef U :=
+  match g with
+  | .active n b p u => .active (name.getD n) b (params.getD p) (match unitary with | some f => some f | none => u)
+  | .idle n p par u => .idle (name.getD n) (params.getD p) par (match unitary with | some f => some f | none => u)
+
+end GDef
+
+/-- `AnnotatedValue.classical` -/
+def classical : Kind → M Bool
+  | .none => throw (.jaqal "no-type")
+  | .qubit => pure false
+  | .register => pure false
+  | .int => pure true
+  | .float => pure true
+
+/-- an element of `used_qubits`: a parameter (by name) or the symbol `all` -/
+inductive UsedQ where
+  | param (name : String)
+  | all
+  deriving DecidableEq, Repr
+
+/-- `GateDefinition.used_qubits` (non-classical and untyped parameters), `BusyGateDefinition.used_qubits`
+(`all`), `IdleGateDefinition.used_qubits` (nothing) -/
+def usedQubits {U : Type} : GDef U → List UsedQ
+  | .active _ false ps _ =>
+    (ps.filter (fun p => match classical p.2 with | .ok c => !c | .error _ => true)).map (fun p => .param p.1)
+  | .active _ true _ _ => [.all]
+  | .idle _ _ _ _ => []
+
+/-- `[param for param in parameters if f(param.classical)]` or the `JaqalError` of the first untyped parameter -/
+def filterClassical (want : Bool) : List (String × Kind) → M (List (String × Kind))
+  | [] => pure []
+  | p :: ps => do
+    let c ← classical p.2
+    let r ← filterClassical want ps
+    pure (if c == want then p :: r else r)
+
+/-- `quantum_parameters` -/
+def quantumParams {U : Type} (g : GDef U) : M (List (String × Kind)) :=
+  match filterClassical false g.params with
+  | .ok r => pure r
+  | .error _ => throw (.jaqal "unknown-type")
+
+/-- `classical_parameters` -/
+def classicalParams {U : Type} (g : GDef U) : M (List (String × Kind)) :=
+  match filterClassical true g.params with
+  | .ok r => pure r
+  | .error _ => throw (.jaqal "unknown-type")
+
+/-- A dictionary of gate definitions (`dict` in insertion order; a key need not be the gate's name). -/
+abbrev GateSet (U : Type) := List (String × GDef U)
+
+def isSpecial (n : String) : Bool := n = "prepare_all" || n = "measure_all"
+
+/-- `IdleGateDefinition(gate, name=name)`: `JaqalError` for `prepare_all` / `measure_all`; the same
+parameter list; `name if name else f"I_{gate.name}"` (an empty name counts as not given). -/
+def mkIdle {U : Type} (g : GDef U) (name : Option String) : M (GDef U) :=
+  if isSpecial g.name then throw (.jaqal "no-idle-gate")
+  else
+    let n := match name with
+      | some s => if s ≠ "" then s else "I_" ++ g.name
+      | none => "I_" ++ g.name
+    pure (.idle n g.params g none)
+
+/-- one iteration of the loop of `add_idle_gates` -/
+def idleStep {U : Type} (gates : GateSet U) (e : String × GDef U) : GateSet U :=
+  let gates := odSet gates e.1 e.2
+  match mkIdle e.2 none with
+  | .error _ => gates                 -- `except JaqalError: pass`
+  | .ok i => odSet gates i.name i
+
+/-- `add_idle_gates(active_gates)` -/
+def addIdleGates {U : Type} (active : GateSet U) : GateSet U :=
+  active.foldl idleStep []
+
+/-- the parameter `stretched_gates` appends -/
+def stretchParam : String × Kind := ("stretch", .float)
+
+/-- `if suffix:` — `None` and `""` are both false -/
+def truthy : Option String → Option String
+  | some s => if s ≠ "" then some s else none
+  | none => none
+
+/-- the wrapper `lambda *args, _parent=gate.ideal_unitary: _parent(*args[:-1])` -/
+def dropStretch {U : Type} (parent : List Val → U) : List Val → U :=
+  fun args => parent args.dropLast
+
+/-- the stretched copy of one (unwrapped) gate -/
+def stretchOf {U : Type} (suffix : Option String) (gate : GDef U) : GDef U :=
+  gate.copy ((truthy suffix).map (gate.name ++ ·)) (some (gate.params ++ [stretchParam]))
+    (gate.unitary.map dropStretch)
+
+/-- one iteration of the loop of `stretched_gates`. The constructor of the new idle gate can raise
+(`JaqalError`, stretched parent called `prepare_all`/`measure_all`); nothing catches it. -/
+def stretchStep {U : Type} (suffix : Option String) (newGates : GateSet U) (gate : GDef U) : M (GateSet U) :=
+  let name := gate.name
+  if odHas newGates name then pure newGates          -- `continue`
+  else
+    let addIdle := gate.isIdle
+    let gate := match gate with
+      | .idle _ _ p _ => p
+      | g => g
+    let newGate := stretchOf suffix gate
+    let newGates := odSet newGates newGate.name newGate
+    if addIdle then do
+      let newName := name ++ suffix.getD ""              -- `name + (suffix or "")`
+      let i ← mkIdle newGate (some newName)
+      pure (odSet newGates newName i)
+    else pure newGates
+
+def stretchLoop {U : Type} (suffix : Option String) : List (GDef U) → GateSet U → M (GateSet U)
+  | [], acc => pure acc
+  | g :: gs, acc => do
+    let acc ← stretchStep suffix acc g
+    stretchLoop suffix gs acc
+
+/-- `stretched_gates(gates, suffix=suffix, update=update)` -/
+def stretchedGates {U : Type} (suffix : Option String) (update : Bool) (gates : GateSet U) : M (GateSet U) := do
+  let newGates ← stretchLoop suffix (gates.map (·.2)) []
+  if update then pure (odUpdate gates newGates) else pure newGates
+
+/-! ### The emulator's use of a definition (`unitary.py`, one serialised gate) -/
+
+/-- `for param, val in zip(gatedef.parameters, gate.parameters.values())`: classical values go to
+`argv`, the others are resolved to qubit indices (`val.resolve_qubit()[1]`, abstracted as `qidx`). -/
+def splitArgs (qidx : Val → M Nat) : List (String × Kind) → List Val → M (List Val × List Nat)
+  | [], _ => pure ([], [])
+  | _, [] => pure ([], [])
+  | p :: ps, v :: vs => do
+    let c ← classical p.2
+    if c then
+      let (a, q) ← splitArgs qidx ps vs
+      pure (v :: a, q)
+    else
+      let i ← qidx v
+      let (a, q) ← splitArgs qidx ps vs
+      pure (a, i :: q)
+
+/-- What the emulator's loop does with one gate: `none` = `continue` (no unitary), otherwise the matrix
+`ideal_unitary(*argv)` and the qubit indices it is applied to. -/
+def emuEntry {U : Type} (qidx : Val → M Nat) (g : GDef U) (vals : List Val) : M (Option U × List Nat) :=
+  match g.unitary with
+  | none => pure (none, [])
+  | some u => do
+    let (argv, qind) ← splitArgs qidx g.params vals
+    pure (some (u argv), qind)
 
 end Jaqal.GateDef
